@@ -78,6 +78,8 @@ def _run(case, ctx, variant):
         Rm = random_rotation(np.random.default_rng(case["s"] + 1))
         a.cell = np.array(a.cell, float).dot(Rm.T)
         a.positions = np.asarray(a.positions, float).dot(Rm.T)
+    from vmon.oracle.util import flavour
+    st.seen("array_flavour", flavour(a, case["s"] // 3))
     snap = clone(a)
     m0 = AM.resolve(a)
     cell = np.array(a.cell, float)
@@ -197,6 +199,8 @@ def requirements(stats, tier):
     F = 3 if tier == "quick" else 5
     if stats.nseen("dims") < F ** 3:
         need.append("only %d of %d factor triples observed" % (stats.nseen("dims"), F ** 3))
+    if stats.nseen("array_flavour") < 5:
+        need.append("array flavours of the structure (integer widths, memory order, read-only): %s" % sorted(stats.sets.get("array_flavour", [])))
     if stats.nseen("cell_kind") < 5:
         need.append("not all four cell classes observed")
     if stats.nseen("term_kinds_present") < (8 if tier == "quick" else 14):
